@@ -131,6 +131,26 @@ def probe_disagreement(ctx, stage, case):
             for err in r[1]:
                 ctx.failures.append((dict(case, stage='e2e', error=list(err)), 'schema-invalid: element %s under %s: %s' % tuple(err)))
 
+def _footnote_surplus(case):
+    """does the text hold a FOOTNOTE block that no reference can take?  (more blocks than references for some marker, counting a
+    reference inside a block of its own marker as unable to take it) - computed on the parser's own dict tree"""
+    try:
+        d = impl.parser().parse(case['text'], case['root']).to_dict()
+    except Exception:
+        return True
+    blocks, refs = collections.Counter(), collections.Counter()
+    def walk(n, inside):
+        at = n.get('attribs') or {}
+        if n.get('name') == 'displaced':
+            m = at.get('marker'); blocks[m] += 1; inside = inside | {m}
+        elif at.get('displaced') == 'footnote':
+            if at.get('marker') not in inside: refs[at.get('marker')] += 1
+        for key in ('heading', 'subheading', 'from', 'children'):
+            for k in n.get(key, []) or []:
+                if isinstance(k, dict): walk(k, inside)
+    walk(d, frozenset())
+    return any(blocks[m] > refs[m] for m in blocks)
+
 def _err(case):
     e = case.get('error') or ['?', None, '?']
     return e[0], e[1], e[2]
@@ -146,9 +166,13 @@ CLASSIFIERS = {
         # a speech container or group whose only content was a FOOTNOTE block that a reference took
         or (_err(c)[0] in SPEECH and 'FOOTNOTE' in c.get('text', ''))),
     'crossheading_misplaced': lambda c, d: _err(c)[0] == 'crossHeading' and _err(c)[2] == 'not-expected',
-    'paragraph_misplaced': lambda c, d: _err(c)[0] == 'p' and _err(c)[2] == 'not-expected' and _err(c)[1] in ({'debateBody', 'listWrapUp', 'listIntroduction'} | SPEECH),
+    # a p in a list introduction / wrap-up only comes from a FOOTNOTE block that stays behind there: one no reference can take
+    'paragraph_misplaced': lambda c, d: _err(c)[0] == 'p' and _err(c)[2] == 'not-expected' and (
+        _err(c)[1] in ({'debateBody'} | SPEECH) or (_err(c)[1] in ('listWrapUp', 'listIntroduction') and _footnote_surplus(c))),
     'speech_nesting': lambda c, d: _err(c)[0] in SPEECH and _err(c)[2] == 'not-expected',
-    'hier_in_block_context': lambda c, d: _err(c)[0] in HIER and _err(c)[2] == 'not-expected' and _err(c)[1] in (BLOCKISH_PARENTS | SPEECH),
+    # ... from a QUOTE, or from a FOOTNOTE block that stays behind (one no reference can take)
+    'hier_in_block_context': lambda c, d: _err(c)[0] in HIER and _err(c)[2] == 'not-expected' and _err(c)[1] in (BLOCKISH_PARENTS | SPEECH)
+                                          and ('QUOTE' in c.get('text', '') or 'FOOTNOTE' not in c.get('text', '') or _footnote_surplus(c)),
     'from_in_speechgroup': lambda c, d: _err(c) == ('from', 'speechGroup', 'not-expected'),
 }
 
